@@ -99,6 +99,8 @@ def int_bits(fn, ty_ix):
 def run(ctx, rep):
     facts, eff = ctx.facts, ctx.effects
     R, W, S, T, U = (facts.fns.get(n) for n in (READ, WRITE, SEEK, TRUNC, UPD))
+    if U is None and W is not None and any((t.get('callee') or '').endswith('DirEntryEditor::set_size') for b, t in W.calls()):
+        U = W  # the post-write update was merged into write(): its statements are judged there
     if None in (R, W, S, T, U):
         rep.machinery('ANCHOR-MISSING one of File read/write/seek/truncate/update_dir_entry_after_write')
         return
